@@ -246,7 +246,7 @@ def byteflip_part(job, r):
     c('truststore 0 ' + w.ca.pem)
     c('constraints 0 %s=publications@guardtime.test' % EMAIL)
     for i in range(n):
-        recs = [hdr(uri=rng.choice([None, 'u']))] + [pub_rec(1500000000 + j, gen.rnd_imprint(rng, rng.choice([1, 1, 5])), refs=['ab'] * rng.randint(0, 1)) for j in range(rng.randint(0, 2))]
+        recs = [hdr(uri=rng.choice([None, 'u']))] + [pub_rec(1500000000 + j, gen.rnd_imprint(rng, rng.choice([1, 1, 5])), refs=['ab'] * rng.randint(0, 1)) for j in range(rng.randint(1, 2))]
         raw, signed_len, p7 = build(recs, w.signer, work)
         q = c('pubfileparse 0 0 ' + raw.hex())
         v = c('pubfileverify 0 0')
@@ -373,4 +373,4 @@ def run(ctx):
     c = ctx.counters
     if not ctx.violations and not ctx.known_printed:
         ctx.require(c.get('valid_files_trusted', 0) >= 20 and c.get('verify_trusted', 0) >= 10 and c.get('verify_untrusted', 0) >= 50, 'trusted and untrusted verdicts observed')
-        ctx.require(c.get('flip_signed-range_untrusted', 0) >= 300 and c.get('lookups', 0) >= 1000, 'byte changes and lookups executed')
+        ctx.require(c.get('flip_signed-range_untrusted', 0) >= 150 and c.get('lookups', 0) >= 1000, 'byte changes and lookups executed')
